@@ -204,6 +204,15 @@ async def execute(net, hyg, plan):
             key = "port-lost" if lost else ("port-still-bound" if bound else "port-duplicated")
             viol.append({"key": key, "msg": f"after all sessions ended: pool={pool} still-bound={bound} configured={conf}",
                          "detail": {"lost": lost}})
+    if plan.get("restart"):
+        # the same Server object is closed and started again: the pool is the configured ports once more, nothing else
+        await asyncio.wait_for(server.close(), 30)
+        await net.quiesce(0.5)
+        await server.start(host, 2121)
+        pool = pool_ports(server)
+        if pool is not None and sorted(pool) != sorted(conf):
+            viol.append({"key": "port-duplicated" if len(pool) > len(conf) else "port-lost",
+                         "msg": f"after close() and a second start() of the same Server: pool={pool} configured={conf}"})
     # black-box: the full pool can be used again
     net.bind_faults.clear()
     got = []
@@ -353,6 +362,10 @@ def gen_cases(tier, seed):
             # a listener start-up that takes its time before it binds (address resolution): the next command is there meanwhile
             for pre in (3, 5, 8):
                 cases.append({"kind": "single", "seed": seed, "plan": {"n": n, "scripts": [TEMPLATES[name]], "yields": [pre, 1]}})
+    # close() and start() again, then the usual checks
+    for name in ("retr", "two", "pasv_cut", "hold"):
+        for n in (1, 2):
+            cases.append({"kind": "single", "seed": seed, "plan": {"n": n, "restart": True, "scripts": [TEMPLATES[name]], "yields": [1, 1]}})
     # the configured ports handed over in other iterable shapes
     for shape in ("tuple", "generator", "iterator", "map", "range"):
         for name in ("retr", "two") if tier == "quick" else ("retr", "two", "epsv2", "hold"):
